@@ -85,7 +85,9 @@ pub fn check_decimal(ctx: &mut Ctx, lit: &[u8], ty: &IntTy, via: &str) {
     ctx.count(&format!("decimal.{}", class));
     ctx.count(&format!("type.{}", ty.name));
     let detail = |r: &Result<i128, Error>| {
-        jobj(&[("literal", jbytes(lit)), ("type", jstr(ty.name)), ("via", jstr(via)), ("result", jstr(&format!("{:?}", r.as_ref().map_err(|e| e.get_code())))), ("acceptable_values", jstr(&format!("{:?}", al.in_range))), ("candidates", jstr(&format!("{:?}", al.cands))), ("range_error_acceptable", (al.any_out).to_string())])
+        // very long literals are abbreviated in reports (the case index regenerates them)
+        let shown: Vec<u8> = if lit.len() > 400 { [&lit[..60], format!("...({} bytes in all)...", lit.len()).as_bytes(), &lit[lit.len() - 60..]].concat() } else { lit.to_vec() };
+        jobj(&[("literal", jbytes(&shown)), ("type", jstr(ty.name)), ("via", jstr(via)), ("result", jstr(&format!("{:?}", r.as_ref().map_err(|e| e.get_code())))), ("acceptable_values", jstr(&format!("{:?}", al.in_range))), ("candidates", jstr(&format!("{:?}", al.cands))), ("range_error_acceptable", (al.any_out).to_string())])
     };
     let d = parse_nrf(lit).unwrap();
     let shape = lit_shape(lit);
@@ -153,6 +155,27 @@ pub fn run(cfg: &Cfg, rep: &mut Report) {
             ctx.sample(|| jobj(&[("type", jstr(ty.name)), ("literal", jstr(&lit))]));
         }
     });
+    // (1b) literals of 10^4 ... 1.2*10^6 characters whose value is small: a point shifted across more digits than
+    // any internal limit on the exponent or digit position (a handful per run; each costs about a millisecond)
+    let n = cfg.n(0, 40, 400);
+    if n > 0 && !cfg.tiny {
+        run_cases(cfg, "huge-literals", n, rep, |rng, ctx| {
+            let ty = &INT_TYPES[(ctx.index % 10) as usize];
+            let k = *rng.pick(&[10_000usize, 65_536, 100_000, 999_999, 1_000_000, 1_000_001, 1_000_002, 1_200_000]);
+            let v = 1 + rng.usize(99);
+            let lit = match rng.usize(3) {
+                // 0.000...0v E+(k + digits of v) == v
+                0 => format!("0.{}{}E{}", "0".repeat(k), v, k + v.to_string().len()),
+                // v000...0 E-k == v
+                1 => format!("{}{}E-{}", v, "0".repeat(k), k),
+                // v000...0.000...0 (no exponent at all): far out of range for every type
+                _ => format!("{}{}.{}", v, "0".repeat(k), "0".repeat(100)),
+            };
+            ctx.nontrivial(mix(hash_str(&lit), ctx.index % 10));
+            ctx.count("huge-literals.checked");
+            check_decimal(ctx, lit.as_bytes(), ty, "TryFrom<Token>");
+        });
+    }
     // (2) zero in every spelling + random literals + exponents
     let n = cfg.n(40, 2_400_000, 400_000_000);
     run_cases(cfg, "random", n, rep, |rng, ctx| {
